@@ -23,6 +23,23 @@ ASSUMPTIONS = [
 def gen(rng, tier, no, wide=False):
     case = CP.gen_cp_case(rng)
     case["params"]["cycles"] = rng.choice([1, 1, 2, 3])
+    # a history over two directory names: saves, restores and what-if modifications of the current graph in between
+    hist = []
+    if rng.random() < 0.5:
+        # the pattern that distinguishes "what the archive holds" from "what an earlier restore left behind":
+        # a directory name is reused for a modified graph after it has been restored once
+        d = rng.choice("AB")
+        hist = [["save", d], ["restore", d], ["mutate", rng.random(), rng.choice([1, 7, 50, 500])],
+                ["mutate", rng.random(), rng.choice([3, 70, 900])], ["save", d], ["restore", d]]
+    for _ in range(rng.choice([0, 3, 4, 6])):
+        r = rng.random()
+        if r < 0.4:
+            hist.append(["save", rng.choice("AB")])
+        elif r < 0.75:
+            hist.append(["restore", rng.choice("AB")])
+        else:
+            hist.append(["mutate", rng.random(), rng.choice([1, 7, 50, 500])])
+    case["params"]["history"] = hist
     return case
 
 
@@ -81,6 +98,45 @@ def observe(case):
                     import traceback
                     canon["cycles"].append({"raises": C.exc_name(e) + ": " + str(e)[:100] + " @ " + traceback.format_exc().splitlines()[-3].strip()[:80]})
                     break
+            # history phase: the same directory names are reused for different graphs
+            canon["history"] = []
+            saved_dump: Dict[str, Any] = {}
+            zips: Dict[str, str] = {}
+            for op in case["params"].get("history", []):
+                rec: Dict[str, Any] = {"op": op}
+                try:
+                    if op[0] == "save":
+                        out_dir = os.path.join(base, f"cp_hist_{op[1]}")
+                        zips[op[1]] = cur.save(out_dir)
+                        extracted.append(os.path.join("/tmp", out_dir.lstrip("/")))
+                        saved_dump[op[1]] = _dump(cur)
+                        rec["adj"] = saved_dump[op[1]]["adj"]
+                    elif op[0] == "restore":
+                        if op[1] not in zips:
+                            rec["skipped"] = True
+                        else:
+                            cur = restore_cpgraph(zips[op[1]], ta.t, case["params"]["rank"])
+                            rec["dump"] = _dump(cur)
+                            rec["expected"] = saved_dump[op[1]]
+                    else:
+                        el = sorted(cur.edges)
+                        u, v = el[int(op[1] * len(el)) % len(el)]
+                        old = cur.edges[u, v]["weight"]
+                        cur.edges[u, v]["weight"] = op[2]
+                        try:
+                            okm = cur.critical_path()
+                        except AssertionError:
+                            okm = False
+                        if not okm:
+                            cur.edges[u, v]["weight"] = old
+                            cur.critical_path()
+                            rec["skipped"] = True
+                except Exception as e:  # noqa: BLE001
+                    import traceback
+                    rec["raises"] = C.exc_name(e) + ": " + str(e)[:100] + " @ " + traceback.format_exc().splitlines()[-3].strip()[:80]
+                    canon["history"].append(rec)
+                    break
+                canon["history"].append(rec)
         return {"canon": canon}
     finally:
         htaio.remove_case_dir(files)
@@ -101,7 +157,17 @@ def model(drv, case, obs):
     if "orig" not in c:
         return {}
     # node-link round trip in the model: adjacency in insertion order -> links -> adjacency
-    return drv.call({"op": "c19", "adj": c["orig"]["adj"], "cycles": len(c["cycles"])})
+    out = drv.call({"op": "c19", "adj": c["orig"]["adj"], "cycles": len(c["cycles"])})
+    ops = []
+    for rec in c.get("history", []):
+        if rec.get("skipped") or "raises" in rec:
+            continue
+        if rec["op"][0] == "save":
+            ops.append(["save", rec["op"][1], rec["adj"]])
+        elif rec["op"][0] == "restore":
+            ops.append(["restore", rec["op"][1]])
+    out["history"] = drv.call({"op": "c19.history", "ops": ops})["restores"] if ops else []
+    return out
 
 
 def compare(obs, mod) -> List[str]:
@@ -116,6 +182,12 @@ def compare(obs, mod) -> List[str]:
             a, b = cy["dump"]["adj"], mod["states"][i]
             d = [(x, y) for x, y in zip(a, b) if x != y][:2]
             out.append(f"cycle {i + 1}: restored adjacency differs from the model's decode(encode ·): {str(d)[:300]} (lengths {len(a)}/{len(b)})")
+    k = 0
+    for rec in c.get("history", []):
+        if rec["op"][0] == "restore" and "dump" in rec:
+            if k >= len(mod["history"]) or rec["dump"]["adj"] != mod["history"][k]:
+                out.append(f"history: restore from directory {rec['op'][1]} differs from the model's store (latest save to that name)")
+            k += 1
     return out[:4]
 
 
@@ -135,6 +207,14 @@ def oracle(case, obs) -> List[str]:
         if not cy["recomputed_ok"] or cy["recomputed_weight"] != c["orig_weight"]:
             out.append(f"cycle {i + 1}: recomputed critical path weighs {cy['recomputed_weight']}, original {c['orig_weight']}")
         saved = cy["after_recompute"]      # the state the next cycle saves (an equal-weight path may have been chosen)
+    for rec in c.get("history", []):
+        if "raises" in rec:
+            out.append(f"history op {rec['op']} {rec['raises']}")
+        elif rec["op"][0] == "restore" and "dump" in rec:
+            for k in ("adj", "nodes", "edges", "path", "edge_set", "event_set", "maps", "breakdown", "summary"):
+                if rec["dump"].get(k) != rec["expected"].get(k):
+                    out.append(f"history: the graph restored from directory {rec['op'][1]} differs in {k} from the graph most recently saved there")
+                    break
     return out[:8]
 
 
@@ -142,6 +222,9 @@ def features(case, obs):
     f = G.features(case)
     c = obs["canon"]
     f["cycles"] = len(c["cycles"])
+    f["history_restores"] = sum(1 for r in c.get("history", []) if r["op"][0] == "restore" and "dump" in r)
+    f["history_dir_reused"] = int(any(sum(1 for r in c.get("history", []) if r["op"][0] == "save" and r["op"][1] == d) >= 2 for d in "AB"))
+    f["history_mutations"] = sum(1 for r in c.get("history", []) if r["op"][0] == "mutate" and not r.get("skipped"))
     if "orig" in c:
         f["edges"] = len(c["orig"]["edges"])
     return f
